@@ -29,6 +29,6 @@ sys.exit(1 if missing else 0)
 EOF
 rc=$?
 # the suite itself rewrites a few tracked files (src/plzinit/BUILD, test/go.mod): restore what it dirtied
-if [ -z "$before" ]; then git -C "$repo" checkout -- . 2>/dev/null; fi
+if [ -z "$before" ]; then git -C "$repo" checkout -- . 2>/dev/null; git -C "$repo" clean -fdq 2>/dev/null; fi
 rm -f "$out"
 exit $rc
